@@ -20,6 +20,22 @@ func (r *Run) Do(op Op) {
 	r.step = r.nDo
 	r.nDo++
 	r.curOp = op
+	defer func() {
+		if r.Poisoned {
+			return
+		}
+		switch op.K {
+		case "Purge":
+			r.isoProbe(-2, op.K) // may legitimately touch every collection: refresh all probes
+		case "Stable", "Sync", "Backfill", "Reopen":
+			r.isoProbe(-1, op.K)
+		case "DropColl", "CreateColl":
+			// probes handled by the step itself
+		default:
+			r.isoProbe(op.C, op.K)
+		}
+		r.twinCheck(op.K)
+	}()
 	switch op.K {
 	case "Purge":
 		r.Purge(op.H)
@@ -36,8 +52,23 @@ func (r *Run) Do(op Op) {
 		keysOnly, _ := op.Arg["keysOnly"].(bool)
 		r.Backfill(op.H, op.C, from, keysOnly)
 	default:
+		if h, ok := pseudoHandlers[op.K]; ok {
+			h(r, op)
+			return
+		}
 		r.Step(op)
 	}
+}
+
+// pseudoHandlers: bucket-level / read steps registered by the property files (views, queries,
+// collection drops, ...). They are part of histories and of replay files like document ops.
+var pseudoHandlers = map[string]func(r *Run, op Op){}
+
+// ExtraAction lets a property add its own step kinds to the generated histories.
+type ExtraAction struct {
+	Name   string
+	Weight int
+	Gen    func(rt *rapid.T, r *Run) (Op, bool) // false = not applicable now
 }
 
 // resolveFrom turns the symbolic start CAS of a Backfill pseudo-op into a number.
@@ -86,7 +117,7 @@ func genPseudo(rt *rapid.T, w *World, pr *Profile, kind string) Op {
 		op.H = rapid.IntRange(0, len(w.Handles)-1).Draw(rt, "h")
 	}
 	if kind == "Backfill" {
-		op.C = rapid.IntRange(0, len(w.Cfg.Colls)-1).Draw(rt, "bf.coll")
+		op.C = pickColl(rt, w, "bf.coll")
 		op.Arg = map[string]any{
 			"from":     pick(rt, []string{"zero", "ofkey", "after", "before", "max", "zero"}, "bf.from"),
 			"n":        rapid.IntRange(0, 5).Draw(rt, "bf.n"),
@@ -104,6 +135,9 @@ func SeqCase(rt *rapid.T, prop, test string, pr *Profile) (*Run, *Replay) {
 		rt.Fatalf("cannot create world: %v", err)
 	}
 	run := NewRun(w, prop)
+	if pr.Setup != nil {
+		pr.Setup(run)
+	}
 	rp := &Replay{Property: prop, Test: test, Config: w.Cfg}
 	// rapid's state-machine mode: it owns the number of steps (-rapid.steps) and shrinks the
 	// history as one value. Weights are expressed by registering an action several times.
@@ -136,6 +170,22 @@ func SeqCase(rt *rapid.T, prop, test string, pr *Profile) (*Run, *Replay) {
 	pseudo("Backfill", pr.Backfill, nil)
 	pseudo("Reopen", pr.Reopen, func() bool { return cfg.Disk })
 	pseudo("Sync", pr.Sync, func() bool { return len(cfg.Feeds) > 0 })
+	for _, ea := range pr.Extra {
+		ea := ea
+		for i := 0; i < ea.Weight; i++ {
+			actions[fmt.Sprintf("%s%d", ea.Name, i)] = func(t *rapid.T) {
+				if run.Poisoned {
+					t.Skip("world is poisoned")
+				}
+				op, ok := ea.Gen(t, run)
+				if !ok {
+					t.Skip(ea.Name + " not applicable")
+				}
+				rp.Steps = append(rp.Steps, op)
+				run.Do(op)
+			}
+		}
+	}
 	rt.Repeat(actions)
 	finishRun(run, pr)
 	return run, rp
@@ -145,13 +195,19 @@ func finishRun(run *Run, pr *Profile) {
 	if run.Poisoned {
 		return
 	}
+	run.step = run.nDo
 	run.SyncFeeds()
 	if pr != nil && pr.Backfill > 0 {
 		for ci := range run.W.Cfg.Colls {
-			run.Backfill(0, ci, 0, false)
+			if !run.W.Model.Colls[ci].Dropped {
+				run.Backfill(0, ci, 0, false)
+			}
 		}
 	}
 	run.Stable()
+	if pr != nil && pr.Finish != nil {
+		pr.Finish(run)
+	}
 }
 
 // ReplayCase re-executes a saved history.
@@ -161,6 +217,9 @@ func ReplayCase(rp *Replay, pr *Profile) (*Run, error) {
 		return nil, err
 	}
 	run := NewRun(w, rp.Property)
+	if pr != nil && pr.Setup != nil {
+		pr.Setup(run)
+	}
 	for _, op := range rp.Steps {
 		run.Do(op)
 	}
@@ -173,6 +232,7 @@ func seqProperty(t *testing.T, prop, test string, pr *Profile, defChecks int, ru
 	st := statsFor(prop, test)
 	st.Rule = rule
 	var failOnce sync.Once
+	var minText string
 	if pr.Exclude == nil {
 		pr.Exclude = func(op Op, p St, ki *KeyInfo) bool { return excludedBy(prop, op, p, ki) }
 		pr.Excluded = &st.Excluded
@@ -186,7 +246,7 @@ func seqProperty(t *testing.T, prop, test string, pr *Profile, defChecks int, ru
 		if err != nil {
 			t.Fatalf("replay: %v", err)
 		}
-		defer run.W.Close()
+		defer run.Close()
 		st.AddRun(run)
 		st.Case(run.Signature(), true, func() any { return run.Trace })
 		if ds := Judge(run, st); len(ds) > 0 {
@@ -197,7 +257,7 @@ func seqProperty(t *testing.T, prop, test string, pr *Profile, defChecks int, ru
 	}
 	rapid.Check(t, func(rt *rapid.T) {
 		run, rp := SeqCase(rt, prop, test, pr)
-		defer run.W.Close()
+		defer run.Close()
 		st.AddRun(run)
 		nt := nontrivial(run)
 		st.Case(run.Signature(), nt, func() any { return sampleOf(run) })
@@ -220,8 +280,9 @@ func seqProperty(t *testing.T, prop, test string, pr *Profile, defChecks int, ru
 				rp.Expect = ds
 				saveReplay(rp)
 				st.Violations++
+				minText = devText(ds)
 			})
-			rt.Fatalf("property %s violated (replay %s):%s", prop, replayPath(prop, test), devText(ds))
+			rt.Fatalf("property %s violated (replay %s); minimised history fails with:%s", prop, replayPath(prop, test), minText)
 		}
 	})
 	surveyPrint()
